@@ -129,14 +129,17 @@ Qed.
 
 Lemma build_d4_graph_ext toks n : build_d4_graph rc o1 toks n = build_d4_graph rc o2 toks n.
 Proof.
-  unfold build_d4_graph. destruct (d4_lines _ _ _); [|reflexivity].
+  unfold build_d4_graph, build_d4_graph_with. destruct (d4_lines _ _ _); [|reflexivity].
   destruct (negb _); [reflexivity|].
   destruct (add_free _ _ _ _ _) as [[root s1]|]; [|reflexivity].
   destruct (pass2 _ _); [|reflexivity]. now rewrite pass3_ext.
 Qed.
 
 Theorem load_d4_gen_ext toks n : load_d4_gen rc o1 toks n = load_d4_gen rc o2 toks n.
-Proof. unfold load_d4_gen. now rewrite build_d4_graph_ext. Qed.
+Proof.
+  unfold load_d4_gen, load_d4_gen_with. fold (build_d4_graph rc o1) (build_d4_graph rc o2).
+  now rewrite build_d4_graph_ext.
+Qed.
 End Ext.
 
 (* ---------- the three statements ---------- *)
